@@ -9,6 +9,7 @@ EXPLANATION = (
     "ceil(e/epsilon) as usize and the rows argument to ceil(ln(1/delta)) as usize (equivalently ceil(-ln delta)). R08-dependency: "
     "columns depend on epsilon and not on delta, rows on delta and not on epsilon (taint), and by R02-stride columns is the m of "
     "the hash iterator and rows its k. R08-lower-bounds: under the function's asserts (epsilon > 0, 0 < delta < 1) both are >= 1."
+    " R08-double-hashing (as R07). The sketch's clear() is checked with C19's rules incl. `clear must not change w, d or the hasher`."
 )
 NOT_DECIDED = "whether enhanced double hashing makes the d rows independent enough to deliver delta — an empirical property of the hash family"
 ASSUMPTIONS = ["real-number semantics for f64"]
